@@ -1064,3 +1064,56 @@ def none_guard_matches_use(qualname):
                                ("the guarded attribute `%s.%s` is the one the body uses" % (base, guarded)) if ok else
                                ("the guard tests `%s.%s is not None` but the body never reads it and dereferences `%s.%s` instead" % (base, guarded, base, deref_other[0]))))
     return out
+
+
+def no_order_dependent_iteration_over_sets(qualname):
+    """the iteration order of a set of strings depends on the interpreter's hash seed (PYTHONHASHSEED, random per process by default): a
+    loop over a set -- a set display / comprehension / set(...) call, or a local name bound to one -- whose body appends, inserts,
+    accumulates or registers in order makes the result depend on the process.  Loops that only test membership, raise, or add to
+    another set are order-independent and not reported."""
+    fi = source.lookup(qualname)
+    out = []
+
+    def is_set_expr(e):
+        if isinstance(e, (ast.Set, ast.SetComp)):
+            return True
+        if isinstance(e, ast.Call) and isinstance(e.func, ast.Name) and e.func.id in ("set", "frozenset"):
+            return True
+        if isinstance(e, ast.BinOp) and isinstance(e.op, (ast.BitOr, ast.BitAnd, ast.Sub, ast.BitXor)) and (is_set_expr(e.left) or is_set_expr(e.right)):
+            return True
+        if isinstance(e, ast.Call) and isinstance(e.func, ast.Attribute) and e.func.attr in ("union", "intersection", "difference", "symmetric_difference") and is_set_expr(e.func.value):
+            return True
+        return False
+
+    set_names = {}
+    for s in ast.walk(fi.node):
+        if isinstance(s, ast.Assign) and len(s.targets) == 1 and isinstance(s.targets[0], ast.Name):
+            set_names.setdefault(s.targets[0].id, []).append(is_set_expr(s.value))
+        if isinstance(s, (ast.For, ast.comprehension)):
+            for x in ast.walk(s.target):
+                if isinstance(x, ast.Name):
+                    set_names.setdefault(x.id, []).append(False)  # also bound as a loop variable: not known to be a set
+    n = 0
+    for loop in ast.walk(fi.node):
+        iters = []
+        if isinstance(loop, ast.For):
+            iters = [(loop.iter, loop.body)]
+        elif isinstance(loop, (ast.ListComp,)):
+            iters = [(g.iter, None) for g in loop.generators]
+        for it_expr, body in iters:
+            e = it_expr
+            if isinstance(e, ast.Call) and isinstance(e.func, ast.Name) and e.func.id in ("enumerate", "list", "tuple") and e.args:
+                e = e.args[0]
+            from_set = is_set_expr(e) or (isinstance(e, ast.Name) and set_names.get(e.id) and all(set_names[e.id]))
+            if not from_set:
+                continue
+            n += 1
+            if body is None:
+                ordered = True  # a list built from a set keeps the set's order
+            else:
+                ordered = any((isinstance(x, ast.Call) and isinstance(x.func, ast.Attribute) and (x.func.attr in ("append", "insert", "extend", "write") or x.func.attr.startswith("add_") or x.func.attr == "connect"))
+                              or isinstance(x, ast.AugAssign) for b in body for x in ast.walk(b))
+            out.append(_ob(qualname, "set-iteration-is-order-independent@L%d" % it_expr.lineno, not ordered, it_expr.lineno,
+                           ("the loop over the set `%s` only tests / raises / builds another set" % ast.unparse(it_expr)[:60]) if not ordered else
+                           ("the loop over the set `%s` at line %d appends, inserts, accumulates or registers in iteration order: the order of a set of strings depends on the hash seed of the process" % (ast.unparse(it_expr)[:60], it_expr.lineno))))
+    return out
